@@ -366,3 +366,110 @@ def update_delegated(R, I, tier):
                     R.obligation(f'{label}: every download is bounded by max_targets_size', s.pc, e[2] == z3.BitVec('max_targets_size', 64), decode=dec, group='update/bounded')
             R.reach_any(f'{label}: acceptance reachable', [s.pc for s in oks])
             R.samples.append({'case': label, 'paths': len(done), 'accepted': len(oks)})
+
+# ------------------------------------------------------------------ TargetsWalker::target_path
+def target_path(R, I, tier):
+    """publication of a target file: only a file whose digest equals the signed digest of the target of that name is given a destination,
+    and the destination is the name the client will request"""
+    ctor = I.funcs.get('TargetsWalker::target_path')
+    if not ctor: raise Stuck('TargetsWalker::target_path not found')
+    ctor = ctor[0]
+    FD = z3.Function('DigestOfInputFile', z3.BitVecSort(8), z3.BitVecSort(16))        # digest id of the file at the input path
+    SD = z3.Function('SignedDigestOf', z3.BitVecSort(8), z3.BitVecSort(16))           # digest id recorded in the signed metadata for a target name (0 = not listed)
+    TP = variants('TargetPath')
+    for explicit_name in (False, True):
+        label = 'target_path[' + ('explicit target name' if explicit_name else 'name from the input file name') + ']'
+        st = State(); st.env['fs'] = {}
+        file_id = z3.BitVec('input_file', 8); name_id = z3.BitVec('target_name', 8); cons = z3.Bool('consistent_snapshot')
+        def tname(): return Adt('TargetName', None, {(None, 'nid'): name_id, (None, F('TargetName', 'raw')): Obj('str', s=None, pieces=['{raw}']), (None, F('TargetName', 'resolved')): Adt('Option<String>', 1, {('Some', 0): Obj('str', s=None, pieces=['{resolved}'])})})
+        def m_canon(I_, s, fr, c, a, d, de, rb):
+            okf = z3.Bool(fresh_name('canon_ok')); return leaf_future('ready', val=mk_ok(Obj('path', key='OUT'))) if True else None
+        def m_file_name(I_, s, fr, c, a, d, de, rb): return Adt('Option<&OsStr>', z3.If(z3.Bool('has_file_name'), BV64(1), BV64(0)), {('Some', 0): Obj('osstr')})
+        def m_to_str(I_, s, fr, c, a, d, de, rb): return Adt('Option<&str>', z3.If(z3.Bool('file_name_utf8'), BV64(1), BV64(0)), {('Some', 0): Obj('str', s=None, pieces=['{file name}'])})
+        def m_tn_new(I_, s, fr, c, a, d, de, rb):
+            okf = z3.Bool(fresh_name('name_ok')); return Forks([(okf, mk_ok(tname()), lambda s2: s2.events.append(('name-from-file',))), (z3.Not(okf), mk_err(error('schema/InvalidTargetName')), None)])
+        def m_from_path(I_, s, fr, c, a, d, de, rb): return leaf_future('c10_from_path')
+        def op_from_path(I_, s, fut):
+            okf = z3.Bool(fresh_name('read_ok'))
+            t = Adt('Target', None, {(None, F('Target', 'hashes')): Adt('Hashes', None, {(None, F('Hashes', 'sha256')): Obj('decoded', dig=FD(file_id))}), (None, F('Target', 'length')): z3.BitVec('input_len', 64)})
+            return Forks([(okf, mk_ready(mk_ok(t)), lambda s2: s2.events.append(('hashed-input',))), (z3.Not(okf), mk_ready(mk_err(error('schema/FileRead'))), None)])
+        LEAF_OPS['c10_from_path'] = op_from_path
+        def m_targets(I_, s, fr, c, a, d, de, rb): return Obj('signed_targets_map')
+        def m_get(I_, s, fr, c, a, d, de, rb):
+            k = dr(I_, s, a[1]); nid = k.fields[(None, 'nid')]
+            t = Adt('Target', None, {(None, F('Target', 'hashes')): Adt('Hashes', None, {(None, F('Hashes', 'sha256')): Obj('decoded', dig=SD(nid))})})
+            return Adt('Option<&&Target>', z3.If(SD(nid) != 0, BV64(1), BV64(0)), {('Some', 0): Ref(s.alloc(Ref(s.alloc(t))))})
+        def m_dec_eq(I_, s, fr, c, a, d, de, rb):
+            x, y = dr(I_, s, a[0]), dr(I_, s, a[1]); s.events.append(('digest-compared', str(x.d['dig']), str(y.d['dig']))); return x.d['dig'] == y.d['dig']
+        def m_cons(I_, s, fr, c, a, d, de, rb): return cons
+        def m_hex(I_, s, fr, c, a, d, de, rb):
+            x = dr(I_, s, a[0]); return Obj('str', s=None, pieces=['{hex(%s)}' % x.d['dig']])
+        def m_cow_deref(I_, s, fr, c, a, d, de, rb):
+            v = mat(I_, s, a[0])
+            v = dr(I_, s, v)
+            if isinstance(v, Adt) and ('Borrowed', 0) in v.fields and (not isinstance(v.discr, int) or v.discr == 0): return v.fields[('Borrowed', 0)]
+            if isinstance(v, Adt) and ('Owned', 0) in v.fields: return Ref(s.alloc(v.fields[('Owned', 0)]))
+            return a[0]
+        def m_resolved(I_, s, fr, c, a, d, de, rb): return Obj('str', s=None, pieces=['{resolved}'])
+        def m_exists(I_, s, fr, c, a, d, de, rb): return z3.Bool('destination_exists')
+        def m_url_from(I_, s, fr, c, a, d, de, rb): return mk_ok(Obj('url', base='file', file=path_key(I_, s, a[0])))
+        def m_res_ok(I_, s, fr, c, a, d, de, rb):
+            v = mat(I_, s, a[0]); return Adt('Option', 1 if v.discr == 0 else 0, {('Some', 0): v.fields.get(('Ok', 0))})
+        def m_fs_fetch(I_, s, fr, c, a, d, de, rb): return leaf_future('c10_fs_fetch', url=dr(I_, s, a[1]).d.get('file'))
+        def op_fs_fetch(I_, s, fut):
+            okf = z3.Bool(fresh_name('open_ok')); return Forks([(okf, mk_ready(mk_ok(Obj('stream', of=fut.d['url']))), None), (z3.Not(okf), mk_ready(mk_err(Obj('terror', tkind=None))), None)])
+        LEAF_OPS['c10_fs_fetch'] = op_fs_fetch
+        def m_digest_adapter(I_, s, fr, c, a, d, de, rb):
+            st_ = mat(I_, s, a[0]); want = dr(I_, s, a[1]); return Obj('stream', of=dr(I_, s, st_).d.get('of'), verified_against=str(want.d.get('dig')) if isinstance(want, Obj) else repr(want))
+        def m_try_for_each(I_, s, fr, c, a, d, de, rb): return leaf_future('c10_drain', stream=dr(I_, s, a[0]))
+        def op_drain(I_, s, fut):
+            okf = z3.Bool(fresh_name('existing_matches')); va = fut.d['stream'].d.get('verified_against')
+            return Forks([(okf, mk_ready(mk_ok(unit())), lambda s2: s2.events.append(('existing-verified', va))), (z3.Not(okf), mk_ready(mk_err(Obj('terror', tkind=None))), None)])
+        LEAF_OPS['c10_drain'] = op_drain
+        def m_symlink_md(I_, s, fr, c, a, d, de, rb):
+            okf = z3.Bool(fresh_name('stat_ok')); return leaf_future('ready', val=Adt('Result', z3.If(okf, BV64(0), BV64(1)), {('Ok', 0): Obj('metadata'), ('Err', 0): Obj('ioerror', ek=0)}))
+        def m_file_type(I_, s, fr, c, a, d, de, rb): return Obj('filetype')
+        def m_is_file(I_, s, fr, c, a, d, de, rb): return z3.Bool('existing_is_file')
+        def m_is_symlink(I_, s, fr, c, a, d, de, rb): return z3.Bool('existing_is_symlink')
+        def m_deref_vec(I_, s, fr, c, a, d, de, rb): return a[0]
+        ms = [(RXc(r'^tokio::fs::canonicalize::<'), m_canon), (RXc(r'^std::path::Path::file_name$'), m_file_name), (RXc(r'^OsStr::to_str$'), m_to_str), (RXc(r'^TargetName::new::<'), m_tn_new),
+              (RXc(r'^schema::Target::from_path::<'), m_from_path), (RXc(r' as TargetsWalker>::targets$'), m_targets), (RXc(r'^HashMap::<TargetName, &schema::Target>::get::<'), m_get),
+              (RXc(r'^<Decoded<Hex> as PartialEq>::eq$'), m_dec_eq), (RXc(r' as TargetsWalker>::consistent_snapshot$'), m_cons), (RXc(r'^hex::encode::<'), m_hex), (RXc(r'^<Cow<.*TargetName> as Deref>::deref$'), m_cow_deref),
+              (RXc(r'^TargetName::resolved$'), m_resolved), (RXc(r'^std::path::Path::exists$'), m_exists), (RXc(r'^Url::from_file_path::<'), m_url_from), (RXc(r'^std::result::Result::<Url, \(\)>::ok$'), m_res_ok),
+              (RXc(r'^<FilesystemTransport as Transport>::fetch::<'), m_fs_fetch), (RXc(r'^DigestAdapter::sha256$'), m_digest_adapter), (RXc(r'TryStreamExt>::try_for_each::<'), m_try_for_each),
+              (RXc(r'^tokio::fs::symlink_metadata::<'), m_symlink_md), (RXc(r'^std::fs::Metadata::file_type$'), m_file_type), (RXc(r'^FileType::is_file$'), m_is_file), (RXc(r'^FileType::is_symlink$'), m_is_symlink),
+              (RXc(r'^Box::<\{async block@.*\}>::pin$'), lambda I_, s, fr, c, a, d, de, rb: Adt('Pin<Box<async block>>', None, {(None, 0): Ref(s.alloc(a[0]))})),
+              (RXc(r'^<(std::path::PathBuf|Decoded<Hex>) as Deref>::deref$'), m_deref_vec), (RXc(r'^<Url as Clone>::clone$'), stdm.m_clone_deep)] + editor.install_format_models() + stdm.STD_MODELS
+        saved = list(I.models); I.models[:0] = ms
+        try:
+            tn_opt = mk_some(Ref(st.alloc(tname()))) if explicit_name else mk_none()
+            st.frames.append(ModelFrame(h_async_driver, {'phase': 0, 'ctor': ctor, 'args': [Ref(st.alloc(Obj('walker'))), Obj('path', key='IN/file'), Obj('path', key='OUTDIR'), tn_opt], 'generics': {'Self': 'SignedRepository'}}))
+            done = []; I.run(st, done.append)
+        finally:
+            I.models[:] = saved
+        R.check_interp_clean(I, label)
+        oks = []
+        for s in done:
+            R.paths += 1
+            tag, val = classify(s.result)
+            if tag != 'Ok': continue
+            oks.append(s)
+            def dec(m, label=label): return {'kind': 'target_path', 'case': label, 'consistent_snapshot': bool(z3.is_true(m.eval(cons, model_completion=True))), 'destination_exists': bool(z3.is_true(m.eval(z3.Bool('destination_exists'), model_completion=True)))}
+            R.obligation(f'{label}: a destination is only given for a listed target whose signed SHA-256 equals the digest of the input file', s.pc, z3.And(SD(name_id) != 0, FD(file_id) == SD(name_id)), decode=dec, group='publish/digest-checked')
+            vname = TP[val.discr] if isinstance(val.discr, int) else (val.ty.split('::')[-1] if val.ty.split('::')[-1] in TP else None)
+            pth = None
+            for k, v in val.fields.items():
+                if k[0] in (vname, None) and k[1] in (0, 'path') and pth is None: pth = path_key(I, s, v)
+            R.obligation(f'{label}: the result names its kind (new / existing file / existing symlink)', s.pc, z3.BoolVal(vname is not None and pth is not None), decode=dec, group='publish/destination')
+            plain = 'OUT/{resolved}'; pref = 'OUT/{hex(%s)}.{resolved}' % FD(file_id); pref2 = 'OUT/{hex(%s)}.{resolved}' % SD(name_id)
+            R.obligation(f'{label}: the destination is <outdir>/<resolved name>, prefixed with the hex digest exactly with consistent snapshots', s.pc,
+                         z3.Or(z3.And(z3.Not(cons), z3.BoolVal(pth == plain)), z3.And(cons, z3.BoolVal(pth in (pref, pref2)))), decode=dec, group='publish/destination')
+            if vname in ('File', 'Symlink'):
+                ver = [e for e in s.events if e[0] == 'existing-verified']
+                R.obligation(f'{label}: an existing destination (no consistent snapshots) is accepted only after its content was checked against the signed digest', s.pc,
+                             z3.Or(cons, z3.BoolVal(any(e[1] == str(SD(name_id)) for e in ver))), decode=dec, group='publish/existing-verified')
+            if vname == 'New':
+                R.obligation(f'{label}: "new" only when nothing exists at the destination', s.pc, z3.Not(z3.Bool('destination_exists')), decode=dec, group='publish/new-means-absent')
+        R.reach_any(f'{label}: a destination is reachable', [s.pc for s in oks])
+        R.reach_any(f'{label}: an existing file is reachable', [s.pc for s in oks], z3.Bool('destination_exists'))
+        R.samples.append({'case': label, 'paths': len(done), 'ok': len(oks)})
